@@ -6,6 +6,7 @@ import (
 	"encoding/hex"
 	"encoding/json"
 	"fmt"
+	"hash"
 	"os"
 	"reflect"
 	"sort"
@@ -98,8 +99,19 @@ func allJsonObjectsSorted(doc string) string {
 	return walk()
 }
 
+// flavourOrder rotates the order in which the flavours are used (set from -order)
+var flavourOrder int
+
 func runC09(permsFile, rowsFile string, seed int64, b *hc.Builder) {
-	digest := sha256.New()
+	// one digest per flavour: processes started with different flavour orders (-order) must agree flavour by flavour --
+	// what a flavour writes must not depend on which other flavour wrote the same keys earlier in the process
+	digests := map[string]hash.Hash{}
+	digestOf := func(name string) hash.Hash {
+		if digests[name] == nil {
+			digests[name] = sha256.New()
+		}
+		return digests[name]
+	}
 	stats := map[string]int{}
 	// ---- part 1
 	f, err := os.Open(permsFile)
@@ -262,7 +274,7 @@ func runC09(permsFile, rowsFile string, seed int64, b *hc.Builder) {
 				violation("C09/"+s.name+"/bytes-depend-on-supply-order", fmt.Sprintf("%q vs %q", prev, out), map[string]any{"sink": s.name, "supplied": supplied})
 			}
 			bySet[s.name][sig] = out
-			digest.Write([]byte(out))
+			digestOf(s.name).Write([]byte(out))
 		}
 	}
 	// ---- part 2
@@ -283,7 +295,9 @@ func runC09(permsFile, rowsFile string, seed int64, b *hc.Builder) {
 		}
 		stats["values"]++
 		feat := hc.FeatureKey(row.Av)
-		for _, fl := range flavours() {
+		fls := flavours()
+		for k := range fls { // rotate: -order 1 starts with the second flavour, ...
+			fl := fls[(k+flavourOrder)%len(fls)]
 			var first string
 			for rep := 0; rep < 3; rep++ {
 				ptr := reflect.New(typ) // a fresh instance each time: maps are rebuilt
@@ -296,7 +310,7 @@ func runC09(permsFile, rowsFile string, seed int64, b *hc.Builder) {
 				stats["encodings"]++
 				if rep == 0 {
 					first = wire
-					digest.Write([]byte(wire))
+					digestOf(fl.name).Write([]byte(wire))
 					if fl.name == "json" {
 						if d := allJsonObjectsSorted(wire); d != "" {
 							violation("C09/json/keys-not-ascending/"+feat, "object members are not in ascending byte order: "+d+"  output: "+clip(wire), map[string]any{"schema": row.Schema, "av": row.Av})
@@ -316,13 +330,18 @@ func runC09(permsFile, rowsFile string, seed int64, b *hc.Builder) {
 		}
 	}
 	c09History(stats)
+	c09KeySetReuse(stats)
 	c09Concurrent(stats)
 	keys := []string{}
 	for k := range vcount {
 		keys = append(keys, k)
 	}
 	sort.Strings(keys)
-	sb, _ := json.Marshal(map[string]any{"kind": "stats", "stats": stats, "digest": hex.EncodeToString(digest.Sum(nil)), "violation_counts": vcount})
+	dg := map[string]string{}
+	for k, h := range digests {
+		dg[k] = hex.EncodeToString(h.Sum(nil))
+	}
+	sb, _ := json.Marshal(map[string]any{"kind": "stats", "stats": stats, "digests": dg, "violation_counts": vcount})
 	out.Write(sb)
 	out.WriteByte('\n')
 }
@@ -416,6 +435,62 @@ func c09History(stats map[string]int) {
 				violation("C09/history/"+m.name+"/output-depends-on-earlier-failed-call", fmt.Sprintf("the same value encoded %s before and %s after failed serializations (err %v)", clip(base), clip(after), err),
 					map[string]any{"writer": m.name, "before": base, "after": after, "round": round})
 				break
+			}
+		}
+	}
+}
+
+// a key set that was already encoded once and then grew encodes like a fresh set holding the same keys
+func c09KeySetReuse(stats map[string]int) {
+	type ks struct {
+		name string
+		mk   func(keys []string) (string, string, error) // (reused set, fresh set)
+	}
+	sets := []ks{
+		{"string", func(keys []string) (string, string, error) {
+			reused, fresh := batchkeyset.NewBatchKeySet[string](), batchkeyset.NewBatchKeySet[string]()
+			for i, k := range keys {
+				if err := reused.AddKey(k); err != nil {
+					return "", "", err
+				}
+				if i < len(keys)-1 {
+					reused.EncodeQueryParams() // an earlier use of the set
+				}
+				fresh.AddKey(k)
+			}
+			a, err := reused.EncodeQueryParams()
+			if err != nil {
+				return "", "", err
+			}
+			b, err := fresh.EncodeQueryParams()
+			return a, b, err
+		}},
+		{"bytes", func(keys []string) (string, string, error) {
+			reused, fresh := batchkeyset.NewBytesKeySet(), batchkeyset.NewBytesKeySet()
+			for i, k := range keys {
+				if err := reused.AddKey([]byte(k)); err != nil {
+					return "", "", err
+				}
+				if i < len(keys)-1 {
+					reused.EncodeQueryParams()
+				}
+				fresh.AddKey([]byte(k))
+			}
+			a, err := reused.EncodeQueryParams()
+			if err != nil {
+				return "", "", err
+			}
+			b, err := fresh.EncodeQueryParams()
+			return a, b, err
+		}},
+	}
+	for _, s := range sets {
+		for _, keys := range [][]string{{"b", "a"}, {"k1", "k3", "k2"}, {"z", "a b", "m,n", "x"}} {
+			a, b, err := s.mk(keys)
+			stats["history_encodings"]++
+			if err != nil || a != b {
+				violation("C09/history/keyset-"+s.name+"/output-depends-on-earlier-encoding", fmt.Sprintf("a key set encoded before it was complete gives %q, a fresh set with the same keys %q (err %v)", a, b, err),
+					map[string]any{"keys": keys})
 			}
 		}
 	}
